@@ -285,7 +285,55 @@ def build_T6f(tree):
     return text, span_sha(body)
 
 
+class _InTuple(ast.NodeTransformer):
+    """`x in (a, b)` -> `x == a or x == b`; `x not in (...)` -> `not (...)`; `np.float64(v)` -> `v`"""
+
+    def visit_Compare(self, node):
+        self.generic_visit(node)
+        if len(node.ops) == 1 and isinstance(node.ops[0], (ast.In, ast.NotIn)) and isinstance(node.comparators[0], ast.Tuple):
+            alts = [ast.Compare(left=copy.deepcopy(node.left), ops=[ast.Eq()], comparators=[e]) for e in node.comparators[0].elts]
+            expr = ast.BoolOp(op=ast.Or(), values=alts)
+            if isinstance(node.ops[0], ast.NotIn):
+                expr = ast.UnaryOp(op=ast.Not(), operand=expr)
+            return ast.copy_location(expr, node)
+        return node
+
+    def visit_Call(self, node):
+        self.generic_visit(node)
+        if ast.unparse(node.func) == 'np.float64' and len(node.args) == 1:
+            return node.args[0]
+        return node
+
+
+def build_T6g(tree):
+    """`_check_rescale_dtype`: whether an output type may hold the rescaled values"""
+    fn = find_func(tree, '_check_rescale_dtype')
+    body = strip_doc(fn.body)
+    out = []
+    for st in body:
+        st = copy.deepcopy(st)
+        for node in ast.walk(st):
+            # `if input_range is not None: input_min, input_max = input_range` -> parameters
+            if isinstance(node, ast.If) and ast.unparse(node.test) == 'input_range is not None':
+                if [ast.unparse(x) for x in node.body] != ['input_min, input_max = input_range']:
+                    raise Unsupported('input_range branch of _check_rescale_dtype changed')
+                node.test = ast.Name(id='has_input_range', ctx=ast.Load())
+                node.body = [ast.parse('input_min, input_max = (range_min, range_max)').body[0]]
+        st = _InTuple().visit(st)
+        ast.fix_missing_locations(st)
+        out.append(st)
+    stmts = out + [_ret('True')]
+    attrs = {'output_dtype.kind': ('str', 'outKind'), 'input_dtype.kind': ('str', 'inKind'),
+             'np.iinfo(output_dtype).max': ('int', 'outTypeMax'), 'np.iinfo(output_dtype).min': ('int', 'outTypeMin'),
+             'np.iinfo(input_dtype).max': ('int', 'inTypeMax'), 'np.iinfo(input_dtype).min': ('int', 'inTypeMin')}
+    text = translate_block(stmts, 'checkRescaleDtype',
+                           [('slope', 'rat'), ('intercept', 'rat'), ('has_input_range', 'bool'), ('range_min', 'int'), ('range_max', 'int')],
+                           attrs, doc='`pixels._check_rescale_dtype`: accepted (`ok true`) or refused; dtype kinds and iinfo limits are parameters')
+    return text, span_sha(body)
+
+
 TARGETS = {
+    'T6g': {'file': 'pixels.py', 'build': build_T6g},
     'T6a': {'file': 'image.py', 'build': build_T6a},
     'T6b': {'file': 'image.py', 'build': build_T6b},
     'T6c': {'file': 'image.py', 'build': build_T6c},
